@@ -99,7 +99,7 @@ impl Solo {
         match reply {
             None => Ok(Some(Reply::None)),
             Some(r) => {
-                let bytes = r.serialize_to_vec();
+                let bytes = guarded(|| r.serialize_to_vec()).map_err(|p| format!("serializing the reply panicked: {p}"))?;
                 let msg = codec::decode(&bytes).map(|x| x.0).map_err(|e| format!("independent decoder rejects reply: {e}"))?;
                 Ok(Some(Reply::Bytes(bytes, msg)))
             }
